@@ -284,8 +284,14 @@ def correspond(ctx, binary, cases, what, driver='qconc', monitors=None, fifo=Fal
             small = shrink(case, still2)
             t, m, im = run_both(binary, small, driver)
             d = vlib.first_diff(m, im)
-            ctx.violation(t + '# model: %s\n# impl : %s\n' % (' | '.join(m), ' | '.join(im)),
+            # a difference between the traces of the model and of the implementation breaks the correspondence (tie B); the
+            # property-level monitors found nothing wrong with the implementation's trace on this schedule, so this is not
+            # (yet) an input on which the property fails
+            ctx.violation('# correspondence that no longer checks: tie B for %s — the visible-action trace of the implementation under the\n'
+                          '# cooperative scheduler against the extracted Coq model, on the schedule below (shrunk); the property-level monitors\n'
+                          '# raised no alarm on the implementation\'s trace of this or any other replayed schedule reported here\n' % what
+                          + t + '# model: %s\n# impl : %s\n' % (' | '.join(m), ' | '.join(im)),
                           '%s: implementation differs from the model at trace line %s: expected `%s`, implementation `%s`'
-                          % (what, d[0] if d else '?', d[1] if d else '?', d[2] if d else '?'))
+                          % (what, d[0] if d else '?', d[1] if d else '?', d[2] if d else '?'), no_input=True)
     stats['distinct'] = len(distinct)
     return stats, model, texts
